@@ -626,6 +626,144 @@ def p_axis(c0, r, n, c1, r1, m):
     return ok, f"affine_from_axis -> {tuple(A)[:6]}"
 
 
+def _labels(c0, r, n):
+    return [F(c0) + i * F(r) for i in range(n)]
+
+
+def _fallback(fb):
+    """fb: None | float (scalar: x = s, y = -s) | ("xy", fx, fy) -> (argument for the call, (fx, fy) as Fractions)"""
+    from odc.geo import resxy_
+    if fb is None:
+        return None, (None, None)
+    if isinstance(fb, (tuple, list)):
+        return resxy_(fb[1], fb[2]), (F(fb[1]), F(fb[2]))
+    return fb, (F(fb), -F(fb))
+
+
+def p_axis_fb(c0, r, n, c1, r1, m, fb):
+    """affine_from_axis with a fallback_resolution that may DISAGREE with the label spacing: pixel centre k must map to
+    label k on every axis (exact Fractions); the pixel size is the label spacing for an axis with >= 2 labels and the
+    fallback component only for a single-label axis; a single label without fallback raises ValueError"""
+    import numpy as np
+    from odc.geo.math import affine_from_axis
+    lx, ly = _labels(c0, r, n), _labels(c1, r1, m)
+    xx, yy = np.asarray([float(v) for v in lx]), np.asarray([float(v) for v in ly])
+    arg, (fx, fy) = _fallback(fb)
+    if (n == 1 or m == 1) and fb is None:
+        try:
+            A = affine_from_axis(xx, yy)
+        except ValueError:
+            return True, "ValueError as documented"
+        return False, f"single-label axis without fallback did not raise: {tuple(A)[:6]}"
+    A = affine_from_axis(xx, yy, arg)
+    want_rx = F(r) if n >= 2 else fx
+    want_ry = F(r1) if m >= 2 else fy
+    ok = (F(A.a), F(A.e)) == (want_rx, want_ry) and A.b == 0 and A.d == 0
+    for i in range(n):
+        ok = ok and F(A.c) + (F(i) + F(1, 2)) * F(A.a) == lx[i]
+    for j in range(m):
+        ok = ok and F(A.f) + (F(j) + F(1, 2)) * F(A.e) == ly[j]
+    return ok, f"affine_from_axis({n} x-labels step {r!r}, {m} y-labels step {r1!r}, fallback={fb!r}) -> {tuple(A)[:6]}"
+
+
+def p_data_res(c0, r, n, fb):
+    """data_resolution_and_offset on n regular labels: (spacing, first - spacing/2); the fallback counts only for n == 1"""
+    import numpy as np
+    from odc.geo.math import data_resolution_and_offset
+    lab = _labels(c0, r, n)
+    arr = np.asarray([float(v) for v in lab])
+    if n == 0 or (n == 1 and fb is None):
+        try:
+            got = data_resolution_and_offset(arr, fb)
+        except ValueError:
+            return True, "ValueError as documented"
+        return False, f"did not raise: {got}"
+    res, off = data_resolution_and_offset(arr, fb)
+    want = F(r) if n >= 2 else F(fb)
+    ok = F(res) == want and F(off) == lab[0] - want / 2
+    return ok, f"data_resolution_and_offset({n} labels from {c0!r} step {r!r}, fallback {fb!r}) = {(res, off)}"
+
+
+REPRS = ("int", "int64", "int32", "float", "float32", "float64")
+
+
+def _conv(v, rep):
+    """the exactly representable float v in the requested representation, or None when it does not fit"""
+    import numpy as np
+    if rep in ("int", "int64", "int32"):
+        if F(v).denominator != 1 or (rep == "int32" and abs(v) >= 2 ** 31):
+            return None
+        return {"int": int, "int64": np.int64, "int32": np.int32}[rep](int(v))
+    if rep == "float32":
+        return np.float32(v) if float(np.float32(v)) == v else None
+    return float(v) if rep == "float" else np.float64(v)
+
+
+def p_from_pts_repr(A6, pts, xrep, yrep, seq):
+    """affine_from_pts must reproduce an exact affine mapping whatever the REPRESENTATION of its inputs: Python ints,
+    numpy ints, float32, float64, sources and targets independently, lists or tuples.  The mapping is built with
+    Fractions; all sources and targets are exactly representable in the representation drawn for them."""
+    import numpy as np
+    from odc.geo import xy_
+    from odc.geo.math import affine_from_pts
+    a, b, c, d, e, f = (F(v) for v in A6)
+    X, Y, want = [], [], []
+    for x, y in pts:
+        tx, ty = a * F(x) + b * F(y) + c, d * F(x) + e * F(y) + f
+        cx, cy, ctx, cty = _conv(x, xrep), _conv(y, xrep), _conv(float(tx), yrep), _conv(float(ty), yrep)
+        if None in (cx, cy, ctx, cty) or F(float(tx)) != tx or F(float(ty)) != ty:
+            return True, "outside the domain (a value is not representable in the drawn representation)"
+        X.append(xy_(cx, cy))
+        Y.append(xy_(ctx, cty))
+        want.append((tx, ty))
+    if seq == "tuple":
+        X, Y = tuple(X), tuple(Y)
+    B = affine_from_pts(X, Y)
+    ok = True
+    worst = 0.0
+    for (x, y), (tx, ty) in zip(pts, want):
+        gx, gy = B * (float(x), float(y))
+        mx = 1 + abs(a * F(x)) + abs(b * F(y)) + abs(c)
+        my = 1 + abs(d * F(x)) + abs(e * F(y)) + abs(f)
+        ex, ey = abs(F(gx) - tx), abs(F(gy) - ty)
+        worst = max(worst, float(ex), float(ey))
+        ok = ok and ex <= F(1, 10 ** 9) * mx and ey <= F(1, 10 ** 9) * my
+    return ok, f"affine_from_pts(sources as {xrep}, targets as {yrep}, {seq}) -> {tuple(B)[:6]}; max error at the control points {worst!r}"
+
+
+def p_poly2d_repr(icoef, ipts, arep, brep):
+    """Poly2d.fit on integer control points with an integer-coefficient mapping, the two arrays given in the drawn
+    dtypes (int64/int32/float32/float64 independently): the fit must reproduce the mapping at the control points
+    (1e-6 of the term size; 2^-20 of the largest term when an input is float32, whose 24 bit mantissa the library's
+    normalisation inherits)"""
+    import numpy as np
+    from odc.geo.math import Poly2d
+    pts = [(int(x), int(y)) for x, y in ipts]
+    n = len(pts)
+    nt = 9 if n >= 9 else 4 if n >= 4 else 3
+    cf = [(int(cx), int(cy)) for cx, cy in icoef][:nt]
+
+    def mono(x, y):
+        return [1, x, y, x * y, x * x, y * y, x * x * y, x * y * y, x * x * y * y]
+
+    want = [[sum(c[k] * t for c, t in zip(cf, mono(x, y))) for k in (0, 1)] for x, y in pts]
+    size = [[1 + sum(abs(c[k] * t) for c, t in zip(cf, mono(x, y))) for k in (0, 1)] for x, y in pts]
+    dt = {"int64": "int64", "int32": "int32", "float32": "float32", "float64": "float64"}
+    aa, bb = np.asarray(pts, dtype=dt[arep]), np.asarray(want, dtype=dt[brep])
+    if not (np.array_equal(aa.astype("float64"), np.asarray(pts, dtype="float64")) and np.array_equal(bb.astype("float64"), np.asarray(want, dtype="float64"))):
+        return True, "outside the domain (a value is not representable in the drawn dtype)"
+    p = Poly2d.fit(aa, bb)
+    got = np.asarray(p(np.asarray(pts, dtype="float64")), dtype="float64")
+    err = np.abs(got - np.asarray(want, dtype="float64"))
+    size = np.asarray(size, dtype="float64")
+    if "float32" in (arep, brep):
+        # float32 inputs are normalised in float32 by the library: errors are relative to the LARGEST term of the array
+        ok = bool(np.all(err <= 2.0 ** -20 * size.max()))
+    else:
+        ok = bool(np.all(err <= 1e-6 * size))
+    return ok, f"Poly2d.fit(control points as {arep}, targets as {brep}): max error {float(err.max())!r}"
+
+
 def _close(a, b, tol=1e-9):
     import numpy as np
     a, b = np.asarray(a, dtype="float64"), np.asarray(b, dtype="float64")
@@ -764,7 +902,8 @@ def gcp_layouts(rng):
 
 PREDICATES = {"split": p_split, "near_int": p_near_int, "nonfinite": p_nonfinite, "snap_scale": p_snap_scale,
               "align": p_align, "pow2": p_pow2, "clamp": p_clamp, "snap_grid": p_snap_grid,
-              "snap_affine": p_snap_affine, "bin": p_bin, "axis": p_axis, "rws": p_rws, "from_pts": p_from_pts,
+              "snap_affine": p_snap_affine, "bin": p_bin, "axis": p_axis, "axis_fb": p_axis_fb, "data_res": p_data_res, "rws": p_rws, "from_pts": p_from_pts,
+              "from_pts_repr": p_from_pts_repr, "poly2d_repr": p_poly2d_repr,
               "poly2d": p_poly2d, "norm_xy": p_norm_xy}
 
 
@@ -829,6 +968,38 @@ def search(out, tier, kept):
         r, r1 = (float(rng.choice([1, -1]) * rng.choice([1, 3, 5, 30]) * 2.0 ** rng.randint(-6, 4)) for _ in "xy")
         run("axis", float(rng.randint(-1000, 1000)) * abs(r), r, rng.randint(2, 40),
             float(rng.randint(-1000, 1000)) * abs(r1), r1, rng.randint(2, 40))
+    # fallback_resolution that disagrees with the label spacing (other magnitude, other sign); axes of 1, 2, 3.. labels
+    for _ in range(150 * mult):
+        r, r1 = (float(rng.choice([1, -1]) * rng.choice([1, 3, 5, 10, 20, 30]) * 2.0 ** rng.randint(-4, 3)) for _ in "xy")
+        n, m = rng.choice([1, 1, 2, 2, 3, 4, 7, 20]), rng.choice([1, 1, 2, 3, 5, 16])
+        c0, c1 = float(rng.randint(-1000, 1000)) * abs(r), float(rng.randint(-1000, 1000)) * abs(r1)
+        s_ = float(rng.choice([1, -1]) * rng.choice([1, 7, 10, 25]) * 2.0 ** rng.randint(-3, 2))
+        fb = rng.choice([None, s_, s_, ("xy", s_, -s_), ("xy", -abs(r) * 2, abs(r1) / 2), ("xy", r, r1), abs(r) / 2, -r])
+        run("axis_fb", c0, r, n, c1, r1, m, fb)
+        run("data_res", c0, r, rng.choice([0, 1, 1, 2, 3, 4, 9]), rng.choice([None, s_, -r, r * 3.5]))
+    # representation of the inputs of the fits (Python ints, numpy ints, float32, float64; lists / tuples)
+    for _ in range(200 * mult):
+        xrep, yrep = rng.choice(REPRS), rng.choice(REPRS)
+        frac = rng.choice([0.5, 0.5, 0.0, 0.25])
+        if xrep in ("int", "int64", "int32"):
+            frac = 0.0
+        base = rng.choice([0, 0, 100, -37, 2 ** 24 + 1, 2 ** 24 + 3, 2 ** 26 + 5]) if xrep != "float32" else rng.choice([0, 100, -37])   # beyond ~2^27 the unnormalised lstsq itself loses the mapping
+        k = rng.randint(3, 7)
+        pts = [(0, 0), (5, 0), (0, 3), (4, 7), (9, 2), (2, 9), (6, 6)][:k]
+        pts = tuple((float(base + x + frac), float(y + frac)) for x, y in pts)
+        even = yrep in ("int", "int64", "int32") or frac == 0.25
+        mul = (4 if frac == 0.25 else 2) if even and frac else 1
+        A6 = (float(mul * rng.choice([1, -1, 2])), float(mul * rng.choice([0, 0, 1, -1])), float(rng.choice([0, 3, -1000]) - (mul * base if abs(base) >= 2 ** 24 else 0)),
+              float(mul * rng.choice([0, 1, -2])), float(mul * rng.choice([1, -1, 3])), float(rng.choice([0, -7, 250])))
+        if A6[0] * A6[4] - A6[1] * A6[3] == 0:
+            continue
+        run("from_pts_repr", A6, pts, xrep, yrep, rng.choice(["list", "tuple"]))
+    for _ in range(60 * mult):
+        g = rng.choice([2, 3, 3, 4, 5])
+        o, st = rng.choice([0, 10, 100]), rng.choice([1, 1, 2])
+        ipts = tuple((x * st + o, y) for x in range(g) for y in range(g))
+        icoef = tuple((rng.randint(-3, 3), rng.randint(-3, 3)) for _ in range(9))
+        run("poly2d_repr", icoef, ipts, rng.choice(["int64", "int32", "float32", "float64"]), rng.choice(["int64", "int32", "float32", "float64"]))
     # numpy linear algebra oracles: numeric validation on well conditioned inputs
     for _ in range(150 * mult):
         ang = rng.uniform(-math.pi, math.pi)
